@@ -178,6 +178,7 @@ struct Cluster {
     // monitors
     leaders: BTreeMap<u64, u64>,                 // term -> leader id
     committed: BTreeMap<u64, (u64, u64)>,        // index -> (term,payload)
+    committed_in: BTreeMap<u64, u64>,            // index -> term of the node that first reported it committed
     was_leader: Vec<(u64, bool)>,                // per node (term, is leader) last seen
 }
 
@@ -218,6 +219,7 @@ impl Cluster {
             pool: vec![],
             leaders: BTreeMap::new(),
             committed: BTreeMap::new(),
+            committed_in: BTreeMap::new(),
             was_leader: vec![(0, false); n],
         };
         for i in 0..n {
@@ -465,10 +467,15 @@ fn monitors(cl: &mut Cluster, rep: &mut Report, trace: &[String]) -> bool {
                     cl.leaders.insert(term, i as u64);
                 }
             }
-            // leader completeness: a node that is (or becomes) leader holds every entry committed so far
+            // leader completeness: a node that is (or becomes) leader holds every entry that was reported
+            // committed by a node whose term was not above the leader's (a stale candidate of an OLDER term
+            // may still win its election late and legitimately lacks entries committed in later terms)
             let newly = cl.was_leader[i] != (term, true);
             if newly {
                 for (idx, e) in &cl.committed {
+                    if cl.committed_in.get(idx).copied().unwrap_or(0) > term {
+                        continue;
+                    }
                     if logs[i].get(*idx as usize - 1) != Some(e) {
                         rep.violation(
                             "tensor_chain.raft/leader_completeness",
@@ -502,6 +509,7 @@ fn monitors(cl: &mut Cluster, rep: &mut Report, trace: &[String]) -> bool {
                 Some(_) => {}
                 None => {
                     cl.committed.insert(idx, *e);
+                    cl.committed_in.insert(idx, term);
                 }
             }
         }
